@@ -4,7 +4,7 @@
    every dependency graph by construction (structural recursion on the model list, the recursion
    budget and the pass bound). *)
 From Coq Require Import Permutation.
-From DMCG Require Import SortModels SortProofs.
+From DMCG Require Import SortModels SortProofs SortBasesProofs.
 Open Scope N_scope.
 
 (* the emitted models are exactly the models handed in, each once - for every finite graph with two
@@ -22,6 +22,18 @@ Theorem C11_forward_refs_updated :
       (forall r, In r (rcs m) -> memN r (keys l1) = true) \/ In (n_path m) u.
 Proof. exact sort_forward_refs_updated. Qed.
 
+(* eager dependencies first: every emitted model has each of its base classes - other than itself, among
+   the models handed in - strictly before it, for every finite graph with pairwise distinct paths in
+   which no model is its own base, every input order and every recursion budget.  (For the models the
+   circular phase places, this is the fix-point of the stable sort on the position of the last base.) *)
+Theorem C11_bases_first :
+  forall budget ms s u,
+    NoDup (keys ms) -> (forall m, In m ms -> ~ In (n_path m) (n_bases m)) ->
+    sort_data_models budget ms = Some (s, u) ->
+    forall l1 m l2, s = l1 ++ m :: l2 ->
+      forall b, In b (n_bases m) -> b <> n_path m -> In b (keys ms) -> In b (keys l1).
+Proof. exact sort_bases_first. Qed.
+
 (* non-vacuity and the shapes named in the property, by evaluation *)
 Definition nd p b r := {| n_path := p; n_bases := b; n_refs := r |}.
 Example C11_self_mutual_diamond_cycle :
@@ -38,3 +50,4 @@ Proof. vm_compute. repeat split. Qed.
 
 Print Assumptions C11_permutation.
 Print Assumptions C11_forward_refs_updated.
+Print Assumptions C11_bases_first.
